@@ -186,7 +186,9 @@ func completeMsgDesc(r *rand.Rand, item *Node) *MsgDesc {
 	return m
 }
 
-func suiteC01(c *Ctx) []Suite {
+func suiteC01(c *Ctx) []Suite { return append(suiteC01base(c), largeSuites()...) }
+
+func suiteC01base(c *Ctx) []Suite {
 	gen := func(name string, n int, via func(m *MsgDesc) (string, *ast.DataMessage)) Suite {
 		return Suite{Name: name, Gen: func(c *Ctx) []Case {
 			closed := GenOpt{MaxDepth: 4, MaxSlots: 6, Big: true, Huge: c.Tier == "thorough"}
@@ -475,6 +477,10 @@ func mutateBytes(r *rand.Rand, b []byte) ([]byte, string) {
 const decKeys = "s f w sid sys bytes type"
 
 func suiteC03(c *Ctx) []Suite {
+	return append(append(suiteC03base(c), gridSuites()...), largeSuites()...)
+}
+
+func suiteC03base(c *Ctx) []Suite {
 	return []Suite{
 		{Name: "decode/valid-and-nonminimal", Gen: func(c *Ctx) []Case {
 			var out []Case
@@ -583,7 +589,9 @@ func closedFormHeader(f string, n int) string {
 	return hx(out)
 }
 
-func suiteC13(c *Ctx) []Suite {
+func suiteC13(c *Ctx) []Suite { return append(suiteC13base(c), largeSuites()...) }
+
+func suiteC13base(c *Ctx) []Suite {
 	return []Suite{
 		{Name: "header/boundaries-vs-model", Gen: func(c *Ctx) []Case {
 			var out []Case
@@ -835,6 +843,54 @@ func suiteC14(c *Ctx) []Suite {
 				h[5] = byte(pick(c.R, 1, 3, 5))
 				kind := map[byte]string{1: "selectrsp", 3: "deselectrsp", 5: "linktestrsp"}[h[5]]
 				out = append(out, Case{Op: fmt.Sprintf("ctrl twice %s %s %d %d", kind, hx(h), c.R.Intn(256), c.R.Intn(256)), Decisive: true, Nontrivial: true, Tags: []string{"ctrl-twice"}})
+			}
+			return out
+		}},
+		{Name: "ctrl/header-only-grid", Gen: func(c *Ctx) []Case { return decCases(headerOnlyGrid(c.R), "header-grid") }},
+		{Name: "ctrl/roundtrip-grid", Gen: func(c *Ctx) []Case {
+			// every defined SType x every value of header byte 3 x boundary values of byte 2:
+			// constructed from the raw header and, for reject.req, from the typed constructor
+			var out []Case
+			for _, st := range []int{1, 2, 3, 4, 5, 6, 7, 9} {
+				for b3 := 0; b3 < 256; b3++ {
+					for _, b2 := range []int{0, 1, 2, 7, 0x80, 0xff, c.R.Intn(256)} {
+						h := []byte{byte(c.R.Intn(256)), byte(c.R.Intn(256)), byte(b2), byte(b3), 0, byte(st), byte(c.R.Intn(256)), 2, 3, 4}
+						var res string
+						safely(func() {
+							m := ast.NewHSMSControlMessage(h)
+							enc := m.ToBytes()
+							if !bytes.Equal(enc, append([]byte{0, 0, 0, 10}, h...)) {
+								res = fmt.Sprintf("control message from header % x encodes to % x", h, enc)
+								return
+							}
+							m2, ok := hsms.Parse(enc)
+							if !ok {
+								res = fmt.Sprintf("decoding the control message % x fails", enc)
+							} else if !bytes.Equal(m2.ToBytes(), enc) || m2.Type() != m.Type() {
+								res = fmt.Sprintf("control message % x decodes to %s % x", enc, m2.Type(), m2.ToBytes())
+							}
+						})
+						out = append(out, Case{Detail: "ctrl round trip " + hx(h), Oracle: res, Nontrivial: true, Tags: []string{"ctrl-roundtrip-grid"}})
+					}
+				}
+			}
+			for reason := 0; reason < 256; reason++ {
+				for _, ps := range [][2]int{{0, 0}, {1, 0}, {0, 1}, {1, 9}, {255, 7}, {c.R.Intn(256), c.R.Intn(256)}} {
+					sid := c.R.Intn(65536)
+					var res string
+					safely(func() {
+						m := ast.NewHSMSMessageRejectReq(uint16(sid), byte(ps[0]), byte(ps[1]), []byte{5, 6, 7, 8}, byte(reason))
+						enc := m.ToBytes()
+						m2, ok := hsms.Parse(enc)
+						if !ok {
+							res = fmt.Sprintf("decoding reject.req % x fails", enc)
+						} else if !bytes.Equal(m2.ToBytes(), enc) || m2.Type() != m.Type() {
+							res = fmt.Sprintf("reject.req % x decodes to %s % x", enc, m2.Type(), m2.ToBytes())
+						}
+					})
+					out = append(out, Case{Detail: fmt.Sprintf("reject.req round trip ptype=%d stype=%d reason=%d", ps[0], ps[1], reason), Oracle: res, Nontrivial: true, Tags: []string{"reject-roundtrip-grid"}})
+					out = append(out, Case{Op: fmt.Sprintf("ctrl rejectreq %d %d %d %s %d", sid, ps[0], ps[1], "05060708", reason), Decisive: true, Nontrivial: true, Tags: []string{"ctor:rejectreq-grid"}})
+				}
 			}
 			return out
 		}},
